@@ -163,13 +163,21 @@ def l1(ctx, rid):
                         deep = []
                         for o in ogs:
                             if o.kind == 'discr':
-                                deep += core.origins(f, {'c': o.data['p']})
+                                loc = core.origins(f, {'c': o.data['p']})
+                                if any(x.kind in ('arg', 'upvar') for x in loc):
+                                    # the received value is a parameter of a helper: every caller must hand over recv()'s result
+                                    loc = core.origins_ip(prog, f, {'c': o.data['p']}, depth=3)
+                                    if not all(x.kind == 'call' for x in loc):
+                                        loc = []
+                                deep += loc
                         more = []
                         for o in deep:
                             if o.kind == 'call' and o.data.name in ('timeout_at', 'timeout') and o.data.crate == 'tokio':
                                 for a in o.data.args:
                                     more += core.origins(o.fn, a)
-                        if not any(o.kind == 'call' and o.data.name == 'recv' and 'Receiver' in o.data.path for o in deep + more):
+                        is_recv = lambda o: o.kind == 'call' and o.data.name == 'recv' and 'Receiver' in o.data.path
+                        is_tmo = lambda o: o.kind == 'call' and o.data.name in ('timeout_at', 'timeout') and o.data.crate == 'tokio'
+                        if not any(is_recv(o) for o in deep + more) or not all(is_recv(o) or is_tmo(o) for o in deep):
                             continue
                         for v, tg in t['vals']:
                             if v == 0 and f.dominates(tg, i):
